@@ -20,9 +20,10 @@ pub mod c15;
 pub mod c16;
 pub mod c17;
 pub mod c18;
+pub mod c19;
 pub mod c20;
 
-pub const ALL: &[&str] = &["C01", "C02", "C03", "C04", "C05", "C06", "C07", "C08", "C09", "C10", "C11", "C12", "C13", "C14", "C15", "C16", "C17", "C18", "C20"];
+pub const ALL: &[&str] = &["C01", "C02", "C03", "C04", "C05", "C06", "C07", "C08", "C09", "C10", "C11", "C12", "C13", "C14", "C15", "C16", "C17", "C18", "C19", "C20"];
 
 pub fn run(id: &str, ctx: &RunCtx) -> i32 {
     match id {
@@ -44,6 +45,7 @@ pub fn run(id: &str, ctx: &RunCtx) -> i32 {
         "C16" => c16::run(ctx),
         "C17" => c17::run(ctx),
         "C18" => c18::run(ctx),
+        "C19" => c19::run(ctx),
         "C20" => c20::run(ctx),
         _ => harness_error(&format!("unknown property id {id}")),
     }
@@ -83,6 +85,7 @@ pub fn replay(path: &str) -> i32 {
         "C16" => c16::replay(&v),
         "C17" => c17::replay(&v),
         "C18" => c18::replay(&v),
+        "C19" => c19::replay(&v),
         "C20" => c20::replay(&v),
         _ => harness_error(&format!("no replay for property {prop:?}")),
     }
